@@ -62,6 +62,9 @@ type Case struct {
 	Page  []Node    `json:"page"`
 	Comps []Comp    `json:"comps,omitempty"`
 	Data  []Binding `json:"data,omitempty"`
+	// Store: how the file set is presented to the engine (cat.Stores: "" plain memfs,
+	// "openonly", "overlay2", "overlay3"). The expected output does not depend on it.
+	Store string `json:"store,omitempty"`
 }
 
 // Comp is the file components/<Name>.vuego (Name is PascalCase: KOne -> tag <k-one>).
@@ -369,6 +372,9 @@ func (c Case) Dump() string {
 	var sb strings.Builder
 	for _, k := range names {
 		fmt.Fprintf(&sb, "--- %s ---\n%s", k, files[k])
+	}
+	if c.Store != "" {
+		fmt.Fprintf(&sb, "--- store: %s ---\n", c.Store)
 	}
 	sb.WriteString("--- data ---\n")
 	for _, b := range c.Data {
